@@ -7,7 +7,8 @@
 // over a 5-line pool (also split into two files) x 5 plain statements x every m; every statement with the flag cleared
 // before the start; a join whose joined file must not be read after an interrupt before the start (at most ten lines).
 // Also: a join with several partners per line in interactive mode, interrupted at every printed line; follow mode with a
-// backlog of complete lines and the interrupt already pending (nothing consumed, no error).
+// backlog of complete lines and the interrupt already pending (nothing consumed, no error); follow mode that is idle when the
+// interrupt arrives and whose file grows afterwards.
 include!("verif_grid_common.rs");
 include!("verif_grid_qcommon.rs");
 
@@ -192,6 +193,45 @@ fn verif_grid() {
             worker.join().map_err(|_| "panic".to_owned())??;
             let printed: Vec<&str> = text.lines().filter(|l| !l.contains('\u{1b}')).collect();
             if printed.is_empty() { Ok(()) } else { Err(format!("follow mode, interrupt already pending, backlog {:?}: lines were consumed after the interrupt, printed {:?}", backlog, printed)) }
+        });
+    }
+    // follow mode that is idle when the interrupt arrives: the line appended afterwards is not consumed (nothing printed, no error - whatever it holds)
+    for (i, (appended, query)) in [("k=a v=0\n", "SELECT 1 / v AS w FROM t"), ("k=a v=1\nk=b v=2\n", "SELECT k, v FROM t"), ("k=a v=5\n", "SELECT COUNT(*) AS n FROM t")].iter().enumerate() {
+        g.case(&format!("follow-idle-interrupt-{}", i), move || {
+            use sqlgrep::executor::FollowFileExecutor;
+            use std::os::unix::io::AsRawFd;
+            extern "C" { fn dup(fd: i32) -> i32; fn dup2(a: i32, b: i32) -> i32; fn close(fd: i32) -> i32; }
+            let file = write_temp("followed", b"");
+            let out_path = temp_path("stdout");
+            let out = File::create(&out_path).unwrap();
+            std::io::stdout().flush().unwrap();
+            let saved = unsafe { dup(1) };
+            unsafe { dup2(out.as_raw_fd(), 1); }
+            let (file2, query2) = (file.clone(), query.to_string());
+            let running = Arc::new(AtomicBool::new(true));
+            let running2 = running.clone();
+            let worker = std::thread::spawn(move || -> Result<(), String> {
+                let tables = tables(T)?;
+                let statement = parsing::parse(&query2).map_err(|e| format!("{}", e))?;
+                let mut executor = FollowFileExecutor::new(running2, File::open(&file2).map_err(|e| e.to_string())?, true, Default::default(), ExecutionEngine::new(&tables, &statement)).map_err(|e| e.to_string())?;
+                executor.execute().map_err(|e| format!("the interrupted run reports an error: {}", e))
+            });
+            std::thread::sleep(std::time::Duration::from_millis(500));   // the executor is waiting for the file to grow
+            running.store(false, Ordering::SeqCst);
+            std::thread::sleep(std::time::Duration::from_millis(100));
+            { let mut f = std::fs::OpenOptions::new().append(true).open(&file).unwrap(); f.write_all(appended.as_bytes()).unwrap(); }
+            let t0 = std::time::Instant::now();
+            while !worker.is_finished() && t0.elapsed() < std::time::Duration::from_secs(20) { std::thread::sleep(std::time::Duration::from_millis(10)); }
+            std::io::stdout().flush().unwrap();
+            unsafe { dup2(saved, 1); close(saved); }
+            let mut text = String::new();
+            { use std::io::Read; let _ = File::open(&out_path).and_then(|mut f| f.read_to_string(&mut text)); }
+            let _ = std::fs::remove_file(&out_path);
+            let _ = std::fs::remove_file(&file);
+            if !worker.is_finished() { return Err(format!("follow mode, idle, then the interrupt, then {:?} appended: the executor did not stop", appended)); }
+            worker.join().map_err(|_| "panic".to_owned())??;
+            let printed: Vec<&str> = text.lines().filter(|l| !l.contains('\u{1b}')).collect();
+            if printed.is_empty() { Ok(()) } else { Err(format!("follow mode, idle, then the interrupt, then {:?} appended: the line was consumed after the interrupt, printed {:?}", appended, printed)) }
         });
     }
     // which lines of the joined file were consumed after an interrupt, probed through the queried table: at most the first ten
